@@ -48,7 +48,9 @@ mod sd {
     }
 
     /// records which Serializer methods a value calls, with the string / bytes payload
-    pub struct Rec<'a>(pub &'a mut Vec<(String, Vec<u8>)>);
+    /// records every Serializer call; the second field is what `is_human_readable()` answers (formats differ in that, and an
+    /// implementation may branch on it)
+    pub struct Rec<'a>(pub &'a mut Vec<(String, Vec<u8>)>, pub bool);
     macro_rules! prim {
         ($($f:ident $t:ty),*) => {$(
             fn $f(self, _v: $t) -> Result<(), Msg> { self.0.push((stringify!($f).to_string(), vec![])); Ok(()) }
@@ -66,6 +68,9 @@ mod sd {
         type SerializeStructVariant = Impossible<(), Msg>;
         prim!(serialize_bool bool, serialize_i8 i8, serialize_i16 i16, serialize_i32 i32, serialize_i64 i64, serialize_u8 u8, serialize_u16 u16,
               serialize_u32 u32, serialize_u64 u64, serialize_f32 f32, serialize_f64 f64, serialize_char char);
+        fn is_human_readable(&self) -> bool {
+            self.1
+        }
         fn serialize_str(self, v: &str) -> Result<(), Msg> {
             self.0.push(("str".into(), v.as_bytes().to_vec()));
             Ok(())
@@ -136,9 +141,13 @@ mod sd {
     pub struct Feed<'de> {
         pub via: &'static str,
         pub input: &'de [u8],
+        pub hr: bool,
     }
     impl<'de> de::Deserializer<'de> for Feed<'de> {
         type Error = Msg;
+        fn is_human_readable(&self) -> bool {
+            self.hr
+        }
         fn deserialize_any<V: Visitor<'de>>(self, v: V) -> Result<V::Value, Msg> {
             match self.via {
                 "str" => v.visit_str(std::str::from_utf8(self.input).unwrap()),
@@ -158,19 +167,32 @@ mod sd {
 
     pub fn ser_calls(s: &LeanString) -> Vec<(String, Vec<u8>)> {
         let mut v = vec![];
-        let _ = serde::Serialize::serialize(s, Rec(&mut v));
+        for hr in [true, false] {
+            v.push(("human_readable".to_string(), vec![hr as u8]));
+            let _ = serde::Serialize::serialize(s, Rec(&mut v, hr));
+        }
         v
     }
     pub fn ser_calls_std(s: &String) -> Vec<(String, Vec<u8>)> {
         let mut v = vec![];
-        let _ = serde::Serialize::serialize(s, Rec(&mut v));
+        for hr in [true, false] {
+            v.push(("human_readable".to_string(), vec![hr as u8]));
+            let _ = serde::Serialize::serialize(s, Rec(&mut v, hr));
+        }
         v
     }
     pub fn de_lean(via: &'static str, input: &[u8]) -> Result<LeanString, String> {
-        <LeanString as serde::Deserialize>::deserialize(Feed { via, input }).map_err(|e| e.0)
+        // both kinds of format: the answers must not depend on what `is_human_readable()` says
+        let a = <LeanString as serde::Deserialize>::deserialize(Feed { via, input, hr: true }).map_err(|e| e.0);
+        let b = <LeanString as serde::Deserialize>::deserialize(Feed { via, input, hr: false }).map_err(|e| e.0);
+        match (&a, &b) {
+            (Ok(x), Ok(y)) if x == y => a,
+            (Err(_), Err(_)) => a,
+            _ => Err("human-readable and compact formats are treated differently".to_string()),
+        }
     }
     pub fn de_std(via: &'static str, input: &[u8]) -> Result<String, String> {
-        <String as serde::Deserialize>::deserialize(Feed { via, input }).map_err(|e| e.0)
+        <String as serde::Deserialize>::deserialize(Feed { via, input, hr: true }).map_err(|e| e.0)
     }
 }
 
